@@ -1,33 +1,13 @@
-(* AggPanics.v — exactly when an arity-respecting call of an aggregate built-in aborts (the C01
-   side of C15: the two open known-finding classes), and that the proposed repair
-   (bi_median_fixed / bi_percentile_fixed) never aborts and changes nothing else. *)
+(* AggPanics.v — no arity-respecting call of an aggregate built-in aborts (the C01 side of C15).
+   Before /repo commit 710ac9a two input classes did abort (DESIGN section 7, F1 and F2): a NaN
+   among >= 2 numbers reaching the sort of median / percentile, and percentile of an empty list.
+   The guards added by that commit are transcribed in BuiltinsAgg.v; this file proves that with
+   them every partial operation on the modelled paths is guarded, and what the guards return. *)
 From Coq Require Import ZArith String List Bool Lia Floats.SpecFloat Permutation Arith.
 Require Import Blots.Num Blots.gen.Builtins Blots.Ast Blots.Value Blots.Show Blots.Outcome
   Blots.BuiltinsAgg Blots.proofs.Order Blots.proofs.Aggregates Blots.proofs.AggPercentile.
 Import ListNotations.
 Open Scope Z_scope.
-
-(* class KNanSort: at least two numbers, one of them a NaN, reach the sort *)
-Definition nan_sort_class (ns : list num) : bool := (2 <=? len ns) && has_nan ns.
-
-(* the open known-finding classes of C15, as a decidable predicate on (built-in, arguments) *)
-Definition known_C15 (a : agg) (args : list value) : bool :=
-  match a with
-  | AMedian =>
-      match collect_nums_median args with Ok ns => nan_sort_class ns | _ => false end
-  | APercentile =>
-      match args with
-      | [VList vs; VNum p] =>
-          in_0_100 p &&
-          match mapM as_number vs with
-          | Ok ns => is_empty ns              (* class KPercentileEmpty *)
-                     || nan_sort_class ns     (* class KNanSort *)
-          | _ => false
-          end
-      | _ => false
-      end
-  | _ => false
-  end.
 
 (* side conditions on a percentile call: p is a genuine double, the list fits in memory *)
 Definition args_ok (args : list value) : Prop :=
@@ -75,11 +55,6 @@ Qed.
 Lemma sort_pc_length l s : sort_pc l = Ok s -> length s = length l.
 Proof. intros H. now rewrite (sort_from_length l [] s H). Qed.
 
-Lemma sort_pc_panic_class l : sort_pc l = Panic <-> nan_sort_class l = true.
-Proof.
-  rewrite sort_pc_panic_iff. unfold nan_sort_class, len. rewrite andb_true_iff, Z.leb_le. intuition lia.
-Qed.
-
 (* the tail of median after a successful sort never aborts *)
 Lemma median_tail_ok s : s <> [] ->
   exists v, (let n := len s in
@@ -103,24 +78,8 @@ Proof.
     cbn. eauto.
 Qed.
 
-Lemma bi_median_outcome args :
-  match collect_nums args with
-  | Ok ns => if is_empty ns then bi_median args = Err
-             else if nan_sort_class ns then bi_median args = Panic
-             else exists v, bi_median args = Ok v
-  | _ => bi_median args = Err
-  end.
-Proof.
-  assert (E := bi_agg_collect AMedian args eq_refl). cbn [bi_agg] in E. rewrite E. clear E.
-  destruct (collect_nums_cases args) as [(ns & ->)| ->]; [|reflexivity]. cbn [obind].
-  destruct ns as [|x ns]; [reflexivity|]. cbn [is_empty reduce].
-  destruct (nan_sort_class (x :: ns)) eqn:C.
-  - apply sort_pc_panic_class in C. now rewrite C.
-  - destruct (sort_pc_ok_or_panic (x :: ns)) as [(s & Hs)|Hp].
-    + rewrite Hs. cbn [obind]. apply median_tail_ok.
-      apply sort_pc_length in Hs. destruct s; [discriminate|congruence].
-    + apply sort_pc_panic_class in Hp. congruence.
-Qed.
+Lemma nan_free_of_has_nan ns : has_nan ns = false -> nan_free ns = true.
+Proof. intros H. rewrite has_nan_nan_free in H. now apply negb_false_iff in H. Qed.
 
 Lemma index_num_nil i : index_num [] i = Panic.
 Proof.
@@ -134,11 +93,31 @@ Proof.
   destruct x; cbn; auto. destruct y; cbn; auto.
 Qed.
 
+(* what median returns, case by case *)
+Lemma bi_median_outcome args :
+  match collect_nums args with
+  | Ok ns => if is_empty ns then bi_median args = Err
+             else if has_nan ns then bi_median args = Ok (VNum nnan)
+             else exists v, bi_median args = Ok v
+  | _ => bi_median args = Err
+  end.
+Proof.
+  assert (E := bi_agg_collect AMedian args eq_refl). cbn [bi_agg] in E. rewrite E. clear E.
+  destruct (collect_nums_cases args) as [(ns & ->)| ->]; [|reflexivity]. cbn [obind].
+  destruct ns as [|x ns]; [reflexivity|]. cbn [is_empty reduce].
+  destruct (has_nan (x :: ns)) eqn:C; [reflexivity|].
+  destruct (sort_pc_sorts (x :: ns) (nan_free_of_has_nan _ C)) as (s & Hs & P & _).
+  rewrite Hs. cbn [obind]. apply median_tail_ok.
+  intros ->. apply Permutation_sym, Permutation_nil in P. discriminate.
+Qed.
+
+(* what percentile returns, case by case *)
 Lemma percentile_outcome vs p : valid p = true -> len vs <= 2^53 ->
   let args := [VList vs; VNum p] in
   if in_0_100 p then
     match mapM as_number vs with
-    | Ok ns => if is_empty ns || nan_sort_class ns then bi_percentile args = Panic
+    | Ok ns => if is_empty ns then bi_percentile args = Err
+               else if has_nan ns then bi_percentile args = Ok (VNum nnan)
                else exists v, bi_percentile args = Ok v
     | _ => bi_percentile args = Err
     end
@@ -148,71 +127,83 @@ Proof.
   cbn [arg nth_error obind as_number as_list].
   destruct (in_0_100 p) eqn:Hp; [|reflexivity]. cbn [negb].
   destruct (mapM_as_number_cases vs) as [(ns & -> & L)| ->]; [|reflexivity]. cbn [obind].
-  destruct (nan_sort_class ns) eqn:C.
-  - rewrite orb_true_r. apply sort_pc_panic_class in C. now rewrite C.
-  - rewrite orb_false_r. destruct (sort_pc_ok_or_panic ns) as [(s & Hs)|Hpn].
-    2:{ apply sort_pc_panic_class in Hpn. congruence. }
-    rewrite Hs. cbn [obind]. assert (Ls := sort_pc_length _ _ Hs).
-    destruct ns as [|x ns]; cbn [is_empty].
-    + destruct s; [|discriminate]. unfold usize_sub.
-      destruct (len [] <? 1); cbn [obind]; rewrite index_num_nil; reflexivity.
-    + assert (L1 : 1 <= len s) by (unfold len; rewrite Ls; cbn; lia).
-      unfold usize_sub. replace (len s <? 1) with false by lia. cbn [obind].
-      assert (LS : len s <= 2^53) by (unfold len in *; rewrite Ls, L; lia).
-      assert (R := index_in_range p (len s - 1) Vp Hp ltac:(lia)).
-      destruct (index_num_nth s (percentile_index p (len s - 1))) as (v & -> & _); [lia|].
-      cbn. eauto.
+  destruct ns as [|x ns]; [reflexivity|]. cbn [is_empty].
+  destruct (has_nan (x :: ns)) eqn:C; [reflexivity|].
+  destruct (sort_pc_sorts (x :: ns) (nan_free_of_has_nan _ C)) as (s & Hs & P & _).
+  rewrite Hs. cbn [obind]. assert (Ls := Permutation_length P). cbn [length] in Ls.
+  assert (L1 : 1 <= len s) by (unfold len; lia).
+  unfold usize_sub. replace (len s <? 1) with false by lia. cbn [obind].
+  assert (LS : len s <= 2^53) by (unfold len in *; cbn [length] in L; lia).
+  assert (R := index_in_range p (len s - 1) Vp Hp ltac:(lia)).
+  destruct (index_num_nth s (percentile_index p (len s - 1))) as (v & -> & _); [lia|].
+  cbn. eauto.
 Qed.
 
-(* ---------- the theorem: panics = known classes ---------- *)
-Theorem panic_iff_known a args : args_ok args ->
-  (checked_call a args = Panic <-> known_C15 a args = true).
+(* ---------- the theorem: an arity-respecting call returns a value or an error ---------- *)
+Theorem checked_call_total a args : args_ok args -> ok_or_err (checked_call a args).
 Proof.
-  intros Hok. unfold checked_call.
-  destruct (arity_ok (builtin_arity (agg_builtin a)) (length args)) eqn:Ar.
-  2:{ split; [discriminate|]. intros K. exfalso.
-      destruct a; cbn in K; try discriminate.
-      - (* median with no argument *)
-        cbn in Ar. destruct args; [cbn in K; discriminate|discriminate].
-      - destruct args as [|[] [|[] [|? ?]]]; cbn in K, Ar; discriminate. }
-  destruct a; cbn [bi_agg known_C15].
-  1-5: split; [|discriminate];
-         intros H;
-         first [change (bi_min args) with (bi_agg AMin args) in H; rewrite (bi_agg_collect AMin args eq_refl) in H
-               |change (bi_max args) with (bi_agg AMax args) in H; rewrite (bi_agg_collect AMax args eq_refl) in H
-               |change (bi_avg args) with (bi_agg AAvg args) in H; rewrite (bi_agg_collect AAvg args eq_refl) in H
-               |change (bi_sum args) with (bi_agg ASum args) in H; rewrite (bi_agg_collect ASum args eq_refl) in H
-               |change (bi_prod args) with (bi_agg AProd args) in H; rewrite (bi_agg_collect AProd args eq_refl) in H];
-       destruct (collect_nums_cases args) as [(ns & E)|E]; rewrite E in H; cbn in H;
-       try discriminate; destruct ns; discriminate.
+  intros Hok. unfold checked_call, ok_or_err.
+  destruct (arity_ok (builtin_arity (agg_builtin a)) (length args)) eqn:Ar; [|now right].
+  assert (V : forall f, is_varargs f = true -> f <> AMedian ->
+              (exists v, bi_agg f args = Ok v) \/ bi_agg f args = Err).
+  { intros f Hf Hm. rewrite (bi_agg_collect f args Hf).
+    destruct (collect_nums_cases args) as [(ns & ->)| ->]; [|now right]. cbn [obind].
+    destruct ns; [now right|]. cbn [is_empty]. destruct f; try discriminate; try congruence; cbn; eauto. }
+  destruct a; cbn [bi_agg].
+  1-5: (apply (V AMin) || apply (V AMax) || apply (V AAvg) || apply (V ASum) || apply (V AProd));
+       [reflexivity|discriminate].
   - (* median *)
-    assert (O := bi_median_outcome args). change collect_nums_median with collect_nums_min.
-    rewrite collect_min_eq. destruct (collect_nums args) as [ns| | | |]; try (rewrite O; split; discriminate).
-    destruct ns as [|x ns]; [rewrite O; split; discriminate|]. cbn [is_empty] in O.
-    destruct (nan_sort_class (x :: ns)); [rewrite O; tauto|].
-    destruct O as (v & ->). split; discriminate.
+    assert (O := bi_median_outcome args).
+    destruct (collect_nums args) as [ns| | | |]; try (rewrite O; now right).
+    destruct ns as [|x ns]; [rewrite O; now right|]. cbn [is_empty] in O.
+    destruct (has_nan (x :: ns)); [rewrite O; eauto|]. destruct O as (v & ->). eauto.
   - (* percentile *)
     cbn in Ar. destruct args as [|a0 [|a1 [|? ?]]]; try discriminate.
-    destruct a1; try (split; [unfold bi_percentile, bi_percentile_gen; cbn; discriminate|
-                              destruct a0; discriminate]).
-    destruct a0; try (split; [unfold bi_percentile, bi_percentile_gen; cbn; discriminate|discriminate]).
+    destruct a1; try (right; unfold bi_percentile, bi_percentile_gen; reflexivity).
+    destruct a0; try (right; unfold bi_percentile, bi_percentile_gen; reflexivity).
     destruct (Hok l x eq_refl) as [Vp Hl].
     assert (O := percentile_outcome l x Vp Hl). cbv zeta in O.
-    destruct (in_0_100 x); [|rewrite O; split; discriminate]. cbn [andb].
-    destruct (mapM as_number l) as [ns| | | |]; try (rewrite O; split; discriminate).
-    destruct (is_empty ns || nan_sort_class ns); [rewrite O; tauto|].
-    destruct O as (v & ->). split; discriminate.
+    destruct (in_0_100 x); [|rewrite O; now right].
+    destruct (mapM as_number l) as [ns| | | |]; try (rewrite O; now right).
+    destruct ns as [|y ns]; [rewrite O; now right|]. cbn [is_empty] in O.
+    destruct (has_nan (y :: ns)); [rewrite O; eauto|]. destruct O as (v & ->). eauto.
   - (* any *)
     cbn in Ar. destruct args as [|a0 [|? ?]]; try discriminate.
-    split; [|discriminate]. unfold bi_any. cbn. destruct a0; cbn; discriminate.
+    unfold bi_any. cbn. destruct a0; cbn; eauto.
   - cbn in Ar. destruct args as [|a0 [|? ?]]; try discriminate.
-    split; [|discriminate]. unfold bi_all. cbn. destruct a0; cbn; discriminate.
+    unfold bi_all. cbn. destruct a0; cbn; eauto.
   - (* dot *)
     cbn in Ar. destruct args as [|a0 [|a1 [|? ?]]]; try discriminate.
-    split; [|discriminate]. unfold bi_dot. cbn. destruct a0; cbn; try discriminate.
-    destruct a1; cbn; try discriminate.
-    destruct (negb (length l =? length l0)%nat); [discriminate|].
-    destruct (dot_loop_cases l0 l n0) as [(v & ->)| ->]; cbn; discriminate.
+    unfold bi_dot. cbn. destruct a0; cbn; eauto. destruct a1; cbn; eauto.
+    destruct (negb (length l =? length l0)%nat); [now right|].
+    destruct (dot_loop_cases l0 l n0) as [(v & ->)| ->]; cbn; eauto.
+Qed.
+
+Corollary no_panic a args : args_ok args -> checked_call a args <> Panic.
+Proof.
+  intros H. destruct (checked_call_total a args H) as [(v & ->)| ->]; discriminate.
+Qed.
+
+(* ---------- what the guards return ---------- *)
+Theorem median_nan args ns : collect_nums args = Ok ns -> ns <> [] -> has_nan ns = true ->
+  bi_median args = Ok (VNum nnan).
+Proof.
+  intros C Hne Hn. assert (O := bi_median_outcome args). rewrite C in O.
+  destruct ns; [contradiction|]. cbn [is_empty] in O. now rewrite Hn in O.
+Qed.
+
+Theorem percentile_nan vs p ns : valid p = true -> len vs <= 2^53 -> in_0_100 p = true ->
+  mapM as_number vs = Ok ns -> ns <> [] -> has_nan ns = true ->
+  bi_percentile [VList vs; VNum p] = Ok (VNum nnan).
+Proof.
+  intros Vp Hl Hp M Hne Hn. assert (O := percentile_outcome vs p Vp Hl). cbv zeta in O.
+  rewrite Hp, M in O. destruct ns; [contradiction|]. cbn [is_empty] in O. now rewrite Hn in O.
+Qed.
+
+Theorem percentile_empty p : in_0_100 p = true -> bi_percentile [VList []; VNum p] = Err.
+Proof.
+  intros Hp. unfold bi_percentile, bi_percentile_gen. cbn [arg nth_error obind as_number as_list].
+  rewrite Hp. reflexivity.
 Qed.
 
 (* ---------- debug and release builds agree on percentile ---------- *)
@@ -226,100 +217,10 @@ Proof.
   destruct (as_list a0) as [vs| | | |]; cbn [obind]; try reflexivity.
   destruct (negb (in_0_100 p)); [reflexivity|].
   destruct (mapM as_number vs) as [ns| | | |]; cbn [obind]; try reflexivity.
-  destruct (sort_pc ns) as [s| | | |] eqn:Hs; cbn [obind]; try reflexivity.
-  unfold usize_sub. destruct (len s <? 1) eqn:E; [|reflexivity]. cbn [obind].
-  assert (s = []) as -> by (destruct s; [reflexivity|apply Z.ltb_lt in E; unfold len in E; cbn [length] in E; lia]).
-  now rewrite index_num_nil.
-Qed.
-
-(* ---------- the proposed repair ---------- *)
-Lemma single_nan_sort x : sort_pc [x] = Ok [x].
-Proof. reflexivity. Qed.
-
-Lemma has_nan_not_class ns : ns <> [] -> has_nan ns = true -> nan_sort_class ns = false ->
-  exists x, ns = [x] /\ is_nan x = true.
-Proof.
-  intros Hne Hn C. destruct ns as [|x [|y r]]; [contradiction| |].
-  - exists x. split; [reflexivity|]. cbn in Hn. now rewrite orb_false_r in Hn.
-  - unfold nan_sort_class, len in C. rewrite Hn, andb_true_r in C. cbn [length] in C. apply Z.leb_gt in C. lia.
-Qed.
-
-(* outside the known-finding classes the repair changes nothing *)
-Theorem fixed_conservative a args : args_ok args ->
-  known_C15 a args = false -> checked_call_fixed a args = checked_call a args.
-Proof.
-  intros Hok K. unfold checked_call_fixed, checked_call.
-  destruct (arity_ok _ _) eqn:Ar; [|reflexivity].
-  destruct a; try reflexivity; cbn [bi_agg_fixed bi_agg known_C15] in *.
-  - (* median *)
-    unfold bi_median_fixed, bi_median.
-    destruct (collect_nums_median args) as [ns| | | |]; cbn [obind]; try reflexivity.
-    destruct ns as [|x ns]; [reflexivity|]. cbn [is_empty].
-    destruct (has_nan (x :: ns)) eqn:Hn; [|reflexivity].
-    destruct (has_nan_not_class (x :: ns) ltac:(discriminate) Hn K) as (y & E & Hy).
-    injection E as -> ->. destruct y; try discriminate. reflexivity.
-  - (* percentile *)
-    unfold bi_percentile_fixed, bi_percentile, bi_percentile_gen.
-    destruct (arg args 1) as [a1| | | |] eqn:E1; cbn [obind]; try reflexivity.
-    destruct (as_number a1) as [p| | | |] eqn:Ep; cbn [obind]; try reflexivity.
-    destruct (arg args 0) as [a0| | | |] eqn:E0; cbn [obind]; try reflexivity.
-    destruct (as_list a0) as [vs| | | |] eqn:Ev; cbn [obind]; try reflexivity.
-    destruct (in_0_100 p) eqn:Hp; [|reflexivity]. cbn [negb].
-    cbn in Ar. destruct args as [|b0 [|b1 [|? ?]]]; try discriminate.
-    cbn in E1, E0. injection E1 as ->. injection E0 as ->.
-    destruct a1; try discriminate. injection Ep as ->.
-    destruct a0; try discriminate. injection Ev as ->.
-    destruct (Hok vs p eq_refl) as [Vp Hl]. rewrite Hp in K. cbn [andb] in K.
-    destruct (mapM_as_number_cases vs) as [(ns & E & L)|E]; rewrite E in *; cbn [obind]; [|reflexivity].
-    apply orb_false_iff in K. destruct K as [K1 K2].
-    destruct ns as [|x ns]; [discriminate|]. cbn [is_empty].
-    destruct (has_nan (x :: ns)) eqn:Hn.
-    + destruct (has_nan_not_class (x :: ns) ltac:(discriminate) Hn K2) as (y & Ey & Hy).
-      injection Ey as -> ->. rewrite single_nan_sort. cbn [obind].
-      change (len [y]) with 1. unfold usize_sub. change (1 <? 1) with false. cbn [obind].
-      change (1 - 1) with 0.
-      assert (R := index_in_range p 0 Vp Hp ltac:(lia)).
-      replace (percentile_index p 0) with 0 by lia.
-      destruct y; try discriminate. reflexivity.
-    + destruct (sort_pc (x :: ns)) as [s| | | |] eqn:Hs; cbn [obind]; try reflexivity.
-      assert (Ls := sort_pc_length _ _ Hs).
-      unfold usize_sub. replace (len s <? 1) with false; [reflexivity|].
-      symmetry. apply Z.ltb_ge. unfold len. rewrite Ls. cbn [length]. lia.
-Qed.
-
-(* the repaired built-ins never abort on an arity-respecting call *)
-Theorem fixed_no_panic a args : args_ok args -> checked_call_fixed a args <> Panic.
-Proof.
-  intros Hok. destruct (known_C15 a args) eqn:K.
-  2:{ rewrite (fixed_conservative a args Hok K). intros H.
-      apply (panic_iff_known a args Hok) in H. congruence. }
-  unfold checked_call_fixed. destruct (arity_ok _ _) eqn:Ar; [|discriminate].
-  destruct a; try discriminate; cbn [bi_agg_fixed known_C15] in *.
-  - unfold bi_median_fixed.
-    destruct (collect_nums_median args) as [ns| | | |]; try discriminate. cbn [obind].
-    destruct ns as [|x ns]; [discriminate|]. cbn [is_empty].
-    unfold nan_sort_class in K. apply andb_true_iff in K. destruct K as [_ ->]. discriminate.
-  - destruct args as [|[] [|[] [|? ?]]]; try discriminate.
-    apply andb_true_iff in K. destruct K as [Hp K].
-    unfold bi_percentile_fixed. cbn [arg nth_error obind as_number as_list]. rewrite Hp. cbn [negb].
-    destruct (mapM as_number l) as [ns| | | |]; try discriminate. cbn [obind].
-    destruct ns as [|y ns]; [discriminate|]. cbn [is_empty orb] in *.
-    unfold nan_sort_class in K. apply andb_true_iff in K. destruct K as [_ ->]. discriminate.
-Qed.
-
-(* what the repair returns on the known classes *)
-Theorem fixed_on_known a args : known_C15 a args = true ->
-  bi_agg_fixed a args = Ok (VNum nnan) \/ (a = APercentile /\ bi_agg_fixed a args = Err).
-Proof.
-  intros K. destruct a; try discriminate; cbn [bi_agg_fixed known_C15] in *.
-  - left. unfold bi_median_fixed.
-    destruct (collect_nums_median args) as [ns| | | |]; try discriminate. cbn [obind].
-    destruct ns as [|x ns]; [discriminate|]. cbn [is_empty].
-    unfold nan_sort_class in K. apply andb_true_iff in K. destruct K as [_ ->]. reflexivity.
-  - destruct args as [|[] [|[] [|? ?]]]; try discriminate.
-    apply andb_true_iff in K. destruct K as [Hp K].
-    unfold bi_percentile_fixed. cbn [arg nth_error obind as_number as_list]. rewrite Hp. cbn [negb].
-    destruct (mapM as_number l) as [ns| | | |]; try discriminate. cbn [obind].
-    destruct ns as [|y ns]; [right; split; reflexivity|]. cbn [is_empty orb] in *. left.
-    unfold nan_sort_class in K. apply andb_true_iff in K. destruct K as [_ ->]. reflexivity.
+  destruct ns as [|x ns]; [reflexivity|]. cbn [is_empty].
+  destruct (has_nan (x :: ns)); [reflexivity|].
+  destruct (sort_pc (x :: ns)) as [s| | | |] eqn:Hs; cbn [obind]; try reflexivity.
+  assert (Ls := sort_pc_length _ _ Hs). cbn [length] in Ls.
+  unfold usize_sub. replace (len s <? 1) with false; [reflexivity|].
+  symmetry. apply Z.ltb_ge. unfold len. lia.
 Qed.
